@@ -163,16 +163,13 @@ def check_ctr_backend(rep, fb):
         inst = "ctr::" + fa.name
         w, F = fa.w, fa.F
         try:
-            cur = fa.run("current_block", ["self.ctr_nonce"])[0]["ret"]
             out, st, p = kernel_summary(fb, be, be.one, alias=False, ctx=fa.ctx, F=F.copy())
+            # where the backend keeps the flavour's (counter, nonce) pair: possibly inside a wrapper
+            fname, cn = _find_nonce(st)
+            cur = fa.run("current_block", ["self." + fname])[0]["ret"]
             _unproved(rep, "ctr.no-panic", inst + "::gen_ks_block", p, be.one)
             want = T.mkcipher("E", cur[1], F)
             rep.ob("ctr.ks.block", inst, T.bequal(out[1], want, F), "keystream block == E(current counter block)", loc_of(be.one), computed=T.bshow(out[1]), expected=T.bshow(want))
-            cnv = [v for k, v in st.items() if v[0] == "struct"]
-            if len(cnv) != 1:
-                raise Undecided("backend state is not one CtrNonce struct")
-            cn = cnv[0]
-            fname = [k for k, v in st.items() if v[0] == "struct"][0]
             ctrf = [k for k, v in cn[2].items() if v[0] == "int"][0]
             base = T.ivar(w, "self.%s.%s" % (fname, ctrf))
             rep.ob("ctr.ks.advance", inst, T.iequal(cn[2][ctrf][1], T.iadd(base, T.iconst(w, 1)), F), "one block generated => counter + 1", loc_of(be.one), computed=T.ishow(cn[2][ctrf][1]))
@@ -190,10 +187,35 @@ def check_ctr_backend(rep, fb):
                 curj = subst_value(cur, {}, Fj, {"__ivars__": {"self.%s.%s" % (fname, ctrf): T.iadd(base, T.isize(w, v))}})
                 exp = T.bnorm((("m", j, ZERO, NPAR, fa.cs * CHUNKS, T.mkcipher("E", curj[1], Fj)),), F)
                 rep.ob("par.closed-form.out", inst, T.bequal(pout[1], exp, F), "parallel keystream == n successive one-block results (n symbolic)", loc_of(be.par), computed=T.bshow(pout[1]), expected=T.bshow(exp))
-                pcn = [x for x in pst.values() if x[0] == "struct"][0]
+                pcn = _find_nonce(pst)[1]
                 rep.ob("par.closed-form.state", inst, T.iequal(pcn[2][ctrf][1], T.iadd(base, T.isize(w, NPAR)), F), "counter + n after a parallel call", loc_of(be.par), computed=T.ishow(pcn[2][ctrf][1]))
         except (Undecided, KeyError, IndexError) as e:
             rep.undecided("ctr.ks.block", inst, str(e), loc_of(be.one))
+
+
+def _find_nonce(state):
+    """(dotted path, struct value) of the one struct in a backend state summary that has an integer
+    counter field and a byte-array field: the flavour's CtrNonce, wherever it is nested."""
+    found = []
+
+    def walk(path, v):
+        if v[0] != "struct":
+            return
+        kinds = sorted(x[0] for x in v[2].values())
+        if kinds == ["bytes", "int"]:
+            found.append((path, v))
+            return
+        for k, x in v[2].items():
+            walk(path + "." + str(k), x)
+    for k, v in state.items():
+        walk(str(k), v)
+    uniq = {}
+    for pth, v in found:
+        uniq.setdefault(pth, v)
+    found = list(uniq.items())
+    if len(found) != 1:
+        raise Undecided("backend state holds %d (counter, nonce) structs" % len(found))
+    return found[0]
 
 
 def _names(v):
@@ -280,10 +302,16 @@ def check_belt(rep, fb, parts=("def", "rem", "pos", "par", "export")):
         if ow is None:
             raise Undecided("no owner hands out the BelT backend")
         sfields = [f for f, o in fmap.items() if not o.startswith("<")]
-        if len(sfields) != 1:
-            raise Undecided("backend has %d state fields" % len(sfields))
-        sf = sfields[0]
-        of = fmap[sf]
+        out, st, pth = kernel_summary(fb, be, be.one, alias=False, ctx=belt_ctx(), F=F.copy())
+        # the running counter `s`: the one 128-bit leaf of the borrowed state that a keystream block
+        # changes (the backend may borrow the word itself or a struct that holds both words)
+        leaves = {k: v for k, v in st.items() if v[0] == "int" and any(k == f or k.startswith(f + ".") for f in sfields)}
+        moved = [k for k, v in leaves.items() if not T.iequal(v[1], T.ivar(v[1][1], "self." + k), F)]
+        if len(moved) != 1:
+            raise Undecided("a keystream block changes %d integer words of the borrowed state %s" % (len(moved), sorted(leaves)))
+        sf = moved[0]
+        first, _, rest = sf.partition(".")
+        of = fmap[first] + ("." + rest if rest else "")
         p, b = run("InnerIvInit", "inner_iv_init", ["c", "IV"])
         from .modes import flatten_value
         init = flatten_value(p["ret"])      # dotted paths: the two words may live in a nested plain struct
@@ -295,7 +323,6 @@ def check_belt(rep, fb, parts=("def", "rem", "pos", "par", "export")):
                    "s and s_init are both E(IV) read little-endian", loc_of(b), computed=", ".join("%s=%s" % (k, T.ishow(init[k][1])) for k in ints), expected=T.ishow(s0))
         other = [k for k in ints if k != of]
         base = T.ivar(w, "self." + sf)
-        out, st, pth = kernel_summary(fb, be, be.one, alias=False, ctx=belt_ctx(), F=F.copy())
         if "def" in parts:
             want = S.belt_ks(base, T.iconst(w, 1), F)
             rep.ob("belt.ks.block", inst, T.bequal(out[1], want, F), "keystream block == E(le(s+1)) (pre-increment, mod 2^128)", loc_of(be.one), computed=T.bshow(out[1]), expected=T.bshow(want))
@@ -337,8 +364,8 @@ def check_belt(rep, fb, parts=("def", "rem", "pos", "par", "export")):
             rep.ob("ivstate.resume", inst, T.iequal(back[1], sv, F), "inner_iv_init(iv_state(st)) restores s", loc_of(b6), computed=T.ishow(back[1]), expected=T.ishow(sv))
             pub = subst_value(p6["ret"], {}, F, {"__ivars__": {"self." + of: s0}})
             rep.ob("ivstate.export-public", inst, T.bequal(pub[1], T.bvar("IV"), F), "iv_state of a fresh object is the IV", loc_of(b6), computed=T.bshow(pub[1]), expected="IV")
-    except (Undecided, KeyError, IndexError) as e:
-        rep.undecided("belt.kernel", inst, str(e), loc_of(be.one))
+    except (Undecided, KeyError, IndexError, TypeError, ValueError) as e:
+        rep.undecided("belt.kernel", inst, "%s: %s" % (type(e).__name__, e), loc_of(be.one))
 
 
 def check_ctr_aliases(rep, fb):
